@@ -6,7 +6,7 @@ from .state import Obligation
 from . import verify, solve
 
 
-def check(run, cfg, reports):
+def check(run, cfg, reports, sampled=()):
     obs = []
     for n in cfg['contracts']:
         c = CONTRACTS[n]
@@ -14,12 +14,7 @@ def check(run, cfg, reports):
         if ax:
             obs.append(Obligation('vacuity::%s::axioms-do-not-prove-false' % n, 'vacuity', [], z3.BoolVal(False), n, axioms=ax))
     # hypotheses of a sample of obligations (path condition + invariants + axioms) must not prove false
-    for rep in reports:
-        c = CONTRACTS[rep.name]
-        ax = verify.contract_axioms(c)
-        step = max(1, len(rep.obligations) // 6)
-        for o in rep.obligations[::step]:
-            obs.append(Obligation('vacuity::hyps-of::' + o.name, 'vacuity', o.hyps, z3.BoolVal(False), rep.name, axioms=ax))
+    obs += list(sampled)
     res = solve.discharge(obs, timeout_ms=2000, fast=True) if obs else []
     bad = [o.name for o, r in zip(obs, res) if r['status'] == 'proved']
     covers = {}
